@@ -215,7 +215,8 @@ func unmarshalRangeUTCTime(t *time.Time, s string) error {
 }
 
 func marshalRangeUTCTime(t time.Time) string {
-	return t.Format("20060102T150405Z")
+	// the fraction of a second is optional (RFC 2326, section 3.7) and is accepted when decoding
+	return t.Format("20060102T150405.999Z")
 }
 
 // RangeUTC is a range expressed in UTC units.
